@@ -1228,6 +1228,196 @@ func freeListUnits() {
 	}
 }
 
+// ---------------------------------------------------------------- incremental updates
+
+// rawIncrBase: one page stored as "3 G obj" whose /Annots is the indirect array "5 G obj" holding one text
+// annotation (6 0 obj); written with the given EOL so that the strict checker can read every revision.
+func rawIncrBase(eol string, G int, asStream bool) []byte {
+	content := "BT (incr) Tj ET"
+	type ob struct {
+		nr, gen int
+		body    string
+	}
+	objs := []ob{
+		{1, 0, "<</Type/Catalog/Pages 2 0 R>>"},
+		{2, 0, fmt.Sprintf("<</Type/Pages/Count 1/Kids[3 %d R]>>", G)},
+		{3, G, fmt.Sprintf("<</Type/Page/Parent 2 0 R/MediaBox[0 0 200 200]/Contents 4 0 R/Annots 5 %d R>>", G)},
+		{4, 0, fmt.Sprintf("<</Length %d>>%sstream%s%s%sendstream", len(content), eol, streamEol(eol), content, eol)},
+		{5, G, "[6 0 R]"},
+		{6, 0, fmt.Sprintf("<</Type/Annot/Subtype/Text/Rect[0 0 20 20]/Contents(old)/NM(OLD1)/P 3 %d R>>", G)},
+	}
+	var b bytes.Buffer
+	b.WriteString("%PDF-1.7" + eol + "%\xe2\xe3\xcf\xd3" + eol)
+	offs := map[int]int{}
+	gens := map[int]int{}
+	for _, o := range objs {
+		offs[o.nr], gens[o.nr] = b.Len(), o.gen
+		fmt.Fprintf(&b, "%d %d obj%s%s%sendobj%s", o.nr, o.gen, eol, o.body, eol, eol)
+	}
+	x := b.Len()
+	e2 := " " + eol
+	if len(eol) == 2 {
+		e2 = eol
+	}
+	if !asStream {
+		b.WriteString("xref" + eol + "0 7" + eol + "0000000000 65535 f" + e2)
+		for nr := 1; nr <= 6; nr++ {
+			fmt.Fprintf(&b, "%010d %05d n%s", offs[nr], gens[nr], e2)
+		}
+		fmt.Fprintf(&b, "trailer%s<</Size 7/Root 1 0 R>>%sstartxref%s%d%s%%%%EOF%s", eol, eol, eol, x, eol, eol)
+		return b.Bytes()
+	}
+	var rows []byte
+	row := func(t, a, g int) { rows = append(rows, byte(t), byte(a>>8), byte(a), byte(g>>8), byte(g)) }
+	row(0, 0, 65535)
+	for nr := 1; nr <= 6; nr++ {
+		row(1, offs[nr], gens[nr])
+	}
+	row(1, x, 0)
+	fmt.Fprintf(&b, "7 0 obj%s<</Type/XRef/Size 8/Root 1 0 R/W[1 2 2]/Length %d>>%sstream%s", eol, len(rows), eol, streamEol(eol))
+	b.Write(rows)
+	fmt.Fprintf(&b, "%sendstream%sendobj%sstartxref%s%d%s%%%%EOF%s", eol, eol, eol, eol, x, eol, eol)
+	return b.Bytes()
+}
+
+func incrementalDocs() {
+	for _, G := range []int{0, 1, 2, 65534} {
+		for eolIdx := 0; eolIdx < 3; eolIdx++ {
+			for _, asStream := range []bool{false, true} {
+				for _, xs := range []bool{false, true} {
+					eol := eols[eolIdx]
+					base := rawIncrBase(eol, G, asStream)
+					if ck := checkFile(base, eol, false); len(ck.findings) > 0 {
+						panic("incremental base generator produced a bad input: " + ck.findings[0].detail)
+					}
+					m := &memRWS{b: append([]byte(nil), base...)}
+					step := func(name string, f func(c *model.Configuration) error) bool {
+						c := conf(eol, xs, false)
+						var err error
+						var panicked any
+						func() {
+							defer func() { panicked = recover() }()
+							err = f(c)
+						}()
+						variant := "incr-gen" + map[bool]string{true: "0", false: ">0"}[G == 0]
+						info := outInfo{Source: fmt.Sprintf("incrbase(G=%d,xrefstream=%v)", G, asStream), Op: name, Eol: eolNames[eolIdx],
+							XRef: map[bool]string{true: "stream", false: "table"}[xs], Seed: r.Seed, Variant: variant + ":" + name, InputHex: vh.Hex(base)}
+						r.Count("gen:" + variant + ":" + name)
+						if panicked != nil {
+							r.OracleFail("panic:"+variant+":"+name, info, fmt.Sprint(panicked))
+							return false
+						}
+						if err != nil {
+							r.Count("gen-op-error:" + variant + ":" + name + ":" + strings.SplitN(err.Error(), ":", 2)[0])
+							return false
+						}
+						evaluate(info, append([]byte(nil), m.b...), eol, true, nil, -1, nil)
+						return true
+					}
+					if !step("add-annot-increment", func(c *model.Configuration) error {
+						m.p = 0
+						return api.AddAnnotationsAsIncrement(m, nil, textAnn(), c)
+					}) {
+						continue
+					}
+					step("remove-annot-increment", func(c *model.Configuration) error {
+						m.p = 0
+						return api.RemoveAnnotationsAsIncrement(m, nil, []string{"Text"}, nil, c)
+					})
+				}
+			}
+		}
+	}
+}
+
+// synthIncrement: a crafted context is written in full (as in synthetic), then some of its objects, whose
+// xref entries have generations 0..65534, are rewritten through pdfcpu.WriteIncrement. The whole file must
+// pass the strict checker, and each rewritten object's header is compared with Model.obj_header (nr, gen).
+func synthIncrement(i int) {
+	eolIdx := i % 3
+	eol := eols[eolIdx]
+	n := 4 + r.Rand.Intn(20)
+	xt := &model.XRefTable{Table: map[int]*model.XRefTableEntry{}}
+	xt.Size = &n
+	xt.Root = types.NewIndirectRef(1, 0)
+	cf := model.NewDefaultConfiguration()
+	cf.Eol = eol
+	cf.WriteXRefStream = false
+	cf.WriteObjectStream = false
+	wc := model.NewWriteContext(eol)
+	var buf bytes.Buffer
+	wc.Writer = bufio.NewWriter(&buf)
+	ctx := &model.Context{Configuration: cf, XRefTable: xt, Write: wc}
+	hn, hg := int64(0), 65535
+	xt.Table[0] = &model.XRefTableEntry{Free: true, Offset: &hn, Generation: &hg}
+	gens := map[int]int{}
+	var panicked any
+	var rewritten []int
+	func() {
+		defer func() { panicked = recover() }()
+		must(pdfcpu.VerifC18WriteHeader(wc, model.V17))
+		for nr := 1; nr < n; nr++ {
+			g := []int{0, 0, 1, 2, 7, 65534}[r.Rand.Intn(6)]
+			gens[nr] = g
+			gg := g
+			var o types.Object = types.Integer(nr)
+			switch r.Rand.Intn(4) {
+			case 0:
+				d := types.NewDict()
+				d.Insert("K", types.Integer(nr))
+				o = d
+			case 1:
+				o = types.Array{types.Integer(1), types.Name("N")}
+			case 2:
+				o = types.Name("Nm")
+			}
+			xt.Table[nr] = &model.XRefTableEntry{Generation: &gg, Object: o}
+			must(pdfcpu.VerifC18WriteObject(ctx, nr, g, o.PDFString()))
+		}
+		must(pdfcpu.VerifC18WriteXRefTable(ctx))
+		must(pdfcpu.VerifC18WriteTrailer(wc))
+		must(wc.Flush())
+		prev := wc.Offset
+		// the increment
+		wc.Increment = true
+		wc.Offset = int64(buf.Len())
+		wc.OffsetPrevXRef = &prev
+		wc.Table = map[int]int64{}
+		for nr := 1; nr < n; nr++ {
+			if r.Rand.Intn(3) == 0 || nr == 1 {
+				rewritten = append(rewritten, nr)
+			}
+		}
+		wc.ObjNrs = rewritten
+		must(pdfcpu.WriteIncrement(ctx))
+		must(wc.Flush())
+	}()
+	info := outInfo{Source: fmt.Sprintf("synthetic-increment#%d", i), Op: "synthetic-increment", Eol: eolNames[eolIdx], XRef: "table", Seed: r.Seed,
+		Variant: "synthetic-increment"}
+	if panicked != nil {
+		r.OracleFail("panic:synthetic-increment", info, fmt.Sprint(panicked))
+		return
+	}
+	out := buf.Bytes()
+	evaluate(info, out, eol, true, nil, -1, nil)
+	// K on (objNr, generation) pairs: the header bytes at the offset the increment's xref records
+	ck := checkFile(out, eol, false)
+	if ck.sec == nil {
+		return
+	}
+	for _, e := range ck.sec.ents {
+		if e.typ != 1 || e.a < 0 || e.a >= len(out) {
+			continue
+		}
+		end := bytes.Index(out[e.a:], []byte(" obj"+eol))
+		hdr := ""
+		if end >= 0 && end < 40 {
+			hdr = vh.Hex(out[e.a : e.a+end+4+len(eol)])
+		}
+		r.Case("objhdr", []string{strconv.Itoa(eolIdx), vh.Int(int64(e.nr)), vh.Int(int64(gens[e.nr]))}, hdr)
+	}
+}
+
 func documents() {
 	repo := os.Getenv("VERIF_REPO")
 	if repo == "" {
@@ -1483,6 +1673,11 @@ func main() {
 	lap("sparse")
 	damagedFreeLists()
 	lap("damaged")
+	incrementalDocs()
+	for i := 0; i < r.Pick(60, 600); i++ {
+		synthIncrement(i)
+	}
+	lap("increments")
 	documents()
 	lap("documents")
 }
